@@ -145,9 +145,12 @@ func c10GetMenu(thorough bool) func(op string, key []byte) []env.Fault {
 const c10T = 2
 
 type c10Spec struct {
-	serial   string
+	serial   string // latest fetch
 	obtained int64
 	memValid bool
+	// every body fetched so far with the second it was obtained: under store write/delete failures the
+	// store may legitimately still hold an older record that is inside its own lifetime
+	fetched map[string]int64
 }
 
 func c10Config() *config.PikeConfig {
@@ -173,7 +176,7 @@ func c10Check(spec *c10Spec, r *env.Result, an *analysis, rid string, now int64)
 		if n != 0 {
 			return &vsched.Violation{Sig: "hit-with-origin-contact", Msg: rid}
 		}
-		if !fresh || ser != spec.serial {
+		if at, ok := spec.fetched[ser]; !(ok && now <= at+c10T) {
 			return &vsched.Violation{Sig: "stale-or-foreign-hit", Msg: fmt.Sprintf("request %s at +%d was a hit on serial %s; latest fetch %s obtained at +%d with lifetime %d", rid, now-vtime.Base, ser, spec.serial, spec.obtained-vtime.Base, c10T)}
 		}
 	case "fetching":
@@ -184,6 +187,10 @@ func c10Check(spec *c10Spec, r *env.Result, an *analysis, rid string, now int64)
 			return &vsched.Violation{Sig: "memory-entry-lost", Msg: fmt.Sprintf("request %s refetched although the response cached in memory is still fresh", rid)}
 		}
 		spec.serial, spec.obtained, spec.memValid = ser, now, true
+		if spec.fetched == nil {
+			spec.fetched = map[string]int64{}
+		}
+		spec.fetched[ser] = now
 	default:
 		return &vsched.Violation{Sig: "label-" + r.XStatus, Msg: fmt.Sprintf("request %s labelled %s although the origin always answers cacheable", rid, r.XStatus)}
 	}
@@ -234,6 +241,7 @@ func c10History(c *Ctx, name string, lazy bool, short bool, b vsched.Bounds) Sch
 						// legitimately answer the next request but the origin
 						if _, on := st.Disk["GET a.com /k1"]; !on {
 							spec.serial = ""
+							spec.fetched = nil
 						}
 						// a purge whose store delete fails cannot remove the persisted copy; C10 only
 						// demands a correct, unexpired answer (purge effectiveness is C18's subject)
